@@ -9,10 +9,18 @@ import (
 	"os"
 	"testing"
 
+	"github.com/ipfs/go-cid"
 	"github.com/ipld/go-ipld-prime"
+	"github.com/libp2p/go-libp2p/core/crypto"
+	"github.com/multiformats/go-multicodec"
 	"pgregory.net/rapid"
 
+	"github.com/ucan-wg/go-ucan/did"
+	"github.com/ucan-wg/go-ucan/pkg/command"
+	"github.com/ucan-wg/go-ucan/pkg/policy"
 	"github.com/ucan-wg/go-ucan/token"
+	"github.com/ucan-wg/go-ucan/token/delegation"
+	"github.com/ucan-wg/go-ucan/token/invocation"
 
 	"verif/harness/api"
 	"verif/harness/h"
@@ -509,3 +517,90 @@ var concProp = h.Define(P, "concurrent", func(t *rapid.T) ConcCase {
 }, runConc)
 
 func TestConcurrentRoundTrip(t *testing.T) { concProp.Check(t) }
+
+func issuerOf(t token.Token) did.DID {
+	if x, ok := t.(interface{ Issuer() did.DID }); ok {
+		return x.Issuer()
+	}
+	return did.Undef
+}
+
+// TestGenerators: "for each key algorithm the DID package can generate". Every generator of the did package, the
+// curve-parameterised one with EVERY multicodec constant the package exports (and a few it does not): whenever a
+// generator hands back a key pair and a DID without error, a delegation and an invocation issued by that DID can
+// be sealed with that key and unsealed again, through every codec.
+func TestGenerators(t *testing.T) {
+	ctx := &h.Ctx{P: P, T: t}
+	type gen struct {
+		name string
+		f    func() (crypto.PrivKey, did.DID, error)
+	}
+	gens := []gen{{"GenerateEd25519", did.GenerateEd25519}, {"GenerateSecp256k1", did.GenerateSecp256k1}, {"GenerateECDSA", did.GenerateECDSA}}
+	if h.Thorough() {
+		gens = append(gens, gen{"GenerateRSA", did.GenerateRSA})
+	}
+	for _, code := range []multicodec.Code{did.P256, did.P384, did.P521, did.Secp256k1, did.Ed25519, did.RSA, did.X25519, 0, 0x1203, 0xe8} {
+		code := code
+		gens = append(gens, gen{fmt.Sprintf("GenerateECDSAWithCurve(0x%x)", uint64(code)), func() (crypto.PrivKey, did.DID, error) { return did.GenerateECDSAWithCurve(code) }})
+	}
+	aud := keys.Principal(1).DID
+	n := 0
+	for _, g := range gens {
+		var priv crypto.PrivKey
+		var iss did.DID
+		var err error
+		if pn, pv, _ := h.Try(func() { priv, iss, err = g.f() }); pn {
+			ctx.Fail("C07/generator/panic", "%s panicked: %v", g.name, pv)
+			continue
+		}
+		if err != nil {
+			P.Class("generator-refuses:" + g.name)
+			continue
+		}
+		P.Class("generator:" + g.name)
+		dlg, derr := delegation.Root(iss, aud, command.MustParse("/foo"), policy.Policy{}, delegation.WithNonce(bytes.Repeat([]byte{7}, 12)))
+		inv, ierr := invocation.New(iss, aud, command.MustParse("/foo"), []cid.Cid{}, invocation.WithNonce(bytes.Repeat([]byte{8}, 12)))
+		if derr != nil || ierr != nil {
+			ctx.Fail("C07/generator/constructor-rejects-issuer", "%s returned DID %s, which the token constructors refuse as an issuer: %v %v", g.name, iss, derr, ierr)
+			continue
+		}
+		for _, tk := range []token.Token{dlg, inv} {
+			n++
+			type sealer interface {
+				ToSealed(crypto.PrivKey) ([]byte, cid.Cid, error)
+				ToDagJson(crypto.PrivKey) ([]byte, error)
+				ToDagCbor(crypto.PrivKey) ([]byte, error)
+			}
+			s := tk.(sealer)
+			sealed, id, serr := s.ToSealed(priv)
+			if serr != nil {
+				ctx.Fail("C07/generator/seal-fails", "the key pair returned by %s (DID %s, key type %s) cannot seal a %T it issues: %v", g.name, iss, priv.Type(), tk, serr)
+				continue
+			}
+			back, id2, uerr := token.FromSealed(sealed)
+			if uerr != nil || id2 != id || issuerOf(back) != iss {
+				ctx.Fail("C07/generator/unseal-fails", "a %T sealed with the key pair returned by %s (DID %s) does not unseal: %v (cid %s vs %s)", tk, g.name, iss, uerr, id, id2)
+				continue
+			}
+			js, jerr := s.ToDagJson(priv)
+			if jerr != nil {
+				ctx.Fail("C07/generator/seal-fails", "%s: ToDagJson: %v", g.name, jerr)
+				continue
+			}
+			if b2, jerr := token.FromDagJson(js); jerr != nil || issuerOf(b2) != iss {
+				ctx.Fail("C07/generator/unseal-fails", "%s: FromDagJson: %v", g.name, jerr)
+			}
+			cb, cerr := s.ToDagCbor(priv)
+			if cerr != nil {
+				ctx.Fail("C07/generator/seal-fails", "%s: ToDagCbor: %v", g.name, cerr)
+				continue
+			}
+			if b3, cerr := token.FromDagCbor(cb); cerr != nil || issuerOf(b3) != iss {
+				ctx.Fail("C07/generator/unseal-fails", "%s: FromDagCbor: %v", g.name, cerr)
+			}
+		}
+	}
+	P.EvalN(n)
+	P.AddDistinct(n)
+	P.SetExtra("generator_round_trips", n)
+}
